@@ -87,6 +87,10 @@ type env struct {
 	// modes, see contention_test.go).
 	heldFiles atomic.Int64
 	heldBytes atomic.Int64
+
+	// Name of the gated window this pool went through (window_test.go);
+	// added to the signatures of the final quota proofs.
+	schedule string
 }
 
 func newEnv(r *ev.Run, c cfg, mode string, caseIdx int, rng *rand.Rand) *env {
@@ -794,12 +798,16 @@ func (e *env) finalProofs() {
 		return
 	}
 	e.logOp("final-proofs")
+	allClosed := "all-closed"
+	if e.schedule != "" {
+		allClosed += " schedule=" + e.schedule
+	}
 	// File count.
 	var fs []filesystem.FileReadWriter
 	for i := 0; i < e.c.MaxFiles && !e.c.NoQuota; i++ {
 		f, err := e.q.NewFile(&monHoleSource{pattern: holePattern{zero: true}, rep: e}, 0)
 		if err != nil {
-			e.violate("quota-files-not-conserved after=all-closed", fmt.Sprintf("after closing everything only %d of %d files can be created: %v", i, e.c.MaxFiles, err))
+			e.violate("quota-files-not-conserved after="+allClosed, fmt.Sprintf("after closing everything only %d of %d files can be created: %v", i, e.c.MaxFiles, err))
 			break
 		}
 		fs = append(fs, f)
@@ -807,7 +815,7 @@ func (e *env) finalProofs() {
 	if len(fs) == e.c.MaxFiles && !e.c.NoQuota {
 		if f, err := e.q.NewFile(&monHoleSource{pattern: holePattern{zero: true}, rep: e}, 0); err == nil {
 			fs = append(fs, f)
-			e.violate("quota-files-not-conserved after=all-closed direction=more-available", fmt.Sprintf("more than %d files can be created", e.c.MaxFiles))
+			e.violate("quota-files-not-conserved after="+allClosed+" direction=more-available", fmt.Sprintf("more than %d files can be created", e.c.MaxFiles))
 		}
 	}
 	for _, f := range fs {
@@ -816,7 +824,7 @@ func (e *env) finalProofs() {
 	if e.isAborted() {
 		return
 	}
-	e.probeQuota("all-closed")
+	e.probeQuota(allClosed)
 	if e.isAborted() {
 		return
 	}
@@ -1284,12 +1292,13 @@ func TestCheck(t *testing.T) {
 	// Large short-lived buffers: collect less often (the race runtime
 	// makes every allocated byte expensive).
 	defer debug.SetGCPercent(debug.SetGCPercent(400))
-	r.SetRule("stepped cases: PRNG(seed, case) picks sector size (cycling 1,7,16,512,4096), capacity (1..2500 sectors, incl. 63/64/65/128), quotas, 2-8 file slots, fault and allocator-clamp rates, then 50-400 NewFile/WriteAt/ReadAt/Truncate/GetNextRegionOffset/Close operations with offsets clustered at sector boundaries (every 4th case starts with a scripted exhaust-and-fragment prelude); concurrent rounds: 2-8 goroutines with private files on one shared pool. " +
+	r.SetRule("stepped cases: PRNG(seed, case) picks sector size (cycling 1,7,16,512,4096), capacity (1..2500 sectors, incl. 63/64/65/128), quotas, 2-8 file slots, fault and allocator-clamp rates, then 50-400 NewFile/WriteAt/ReadAt/Truncate/GetNextRegionOffset/Close operations with offsets clustered at sector boundaries (every 4th case starts with a scripted exhaust-and-fragment prelude); concurrent rounds: 2-8 goroutines with private files on one shared pool; quota windows: a fixed list of (parked base call x outcome x intruder x intruder sizing) interleavings of two calls on one quota pool, ordered by channel handshakes, sizes from PRNG(seed, round, combination). " +
 		"A case is non-trivial if it hit at least one listed situation; distinct = distinct sha256 of the operation/result history.")
 	r.Assume("FilePool handles are not thread-safe by contract: a file is only ever used by one goroutine; different files of one pool are used concurrently")
 	r.Assume("hole sources have no data beyond the initial size of the file they are attached to")
 	r.Assume("a device WriteAt that fails reports exactly the number of bytes it stored; device and hole-source faults have no other side effect")
 	r.Assume("after a failed shrinking Truncate the bytes beyond the requested size may be either kept or discarded (old byte, null byte or hole-source byte accepted)")
+	r.Assume("quota windows: a base call parked by the harness has had no effect yet; released with a failure, Truncate and NewFile have no effect, WriteAt has stored nothing or a prefix and reports its length, Close has closed the file")
 	r.Assume("GetNextRegionOffset may over-report data (allocation granularity) but a reported hole must only contain null bytes")
 	floors := []string{"write-fills-hole-mid-file", "shrink-into-sector-then-regrow", "allocation-split-across-fragments",
 		"exhaustion-mid-write", "failed-newfile-with-size", "failed-device-write-after-allocation", "sector-reused-by-another-file",
@@ -1318,6 +1327,9 @@ func TestCheck(t *testing.T) {
 			for k := 0; k < 20; k++ {
 				runConcurrentRound(r, idx)
 			}
+		} else if mode == "quota-window" {
+			// Gated windows are deterministic as well.
+			runQuotaWindow(r, idx/len(windowCombos), idx%len(windowCombos))
 		} else {
 			for k := 0; k < 20; k++ {
 				runQuotaContentionRound(r, idx)
@@ -1325,11 +1337,12 @@ func TestCheck(t *testing.T) {
 		}
 		return
 	}
+	floors = append(floors, windowFloors()...)
 	for _, s := range floors {
 		r.Floor(s, 3)
 	}
 
-	// VERIF_C15_PHASE=stepped|concurrent|contention runs one phase only
+	// VERIF_C15_PHASE=stepped|concurrent|contention|window runs one phase only
 	// (debugging aid; the floors of the other phases are then missed).
 	phase := os.Getenv("VERIF_C15_PHASE")
 
@@ -1346,6 +1359,14 @@ func TestCheck(t *testing.T) {
 	nContention := r.Pick(16, 200)
 	for i := 0; i < nContention && (phase == "" || phase == "contention"); i++ {
 		runQuotaContentionRound(r, i)
+	}
+
+	// Gated windows of the quota layer: every (parked base call, outcome,
+	// intruder, sizing) combination of a fixed list per round, sizes from
+	// the PRNG.
+	nWindow := r.Pick(6, 120)
+	for i := 0; i < nWindow && (phase == "" || phase == "window"); i++ {
+		runQuotaWindowRound(r, i)
 	}
 }
 
